@@ -25,3 +25,109 @@ pub mod consts {
 	pub const MAX_BLOCKS_FOR_CONF: u32 = crate::chain::channelmonitor::MAX_BLOCKS_FOR_CONF;
 	pub const CLTV_FAR_FAR_AWAY: u32 = crate::ln::channelmanager::CLTV_FAR_FAR_AWAY;
 }
+
+/// Commitment statistics, send limits and commitment building of `sign::tx_builder::SpecTxBuilder`
+/// (crate-private), for the C01 differential.
+pub mod txb {
+	#![allow(missing_docs)]
+	use crate::ln::chan_utils::{
+		ChannelTransactionParameters, CommitmentTransaction, HTLCOutputInCommitment,
+	};
+	use crate::sign::tx_builder::{
+		ChannelConstraints, HTLCAmountDirection, SpecTxBuilder, TxBuilder,
+	};
+	use crate::types::features::ChannelTypeFeatures;
+	use crate::util::logger::Logger;
+	use bitcoin::secp256k1::{self, PublicKey, Secp256k1};
+
+	/// (holder_balance_msat, counterparty_balance_msat, dust_exposure_msat) and
+	/// (inbound_capacity, outbound_capacity, next_outbound_htlc_limit, next_outbound_htlc_minimum,
+	/// dust_exposure) of `TxBuilder::get_channel_stats`; `constraints` in declaration order of
+	/// `ChannelConstraints`.
+	pub fn channel_stats(
+		local: bool, is_outbound_from_holder: bool, channel_value_satoshis: u64,
+		value_to_holder_msat: u64, htlcs: &[(bool, u64)], addl_nondust_htlc_count: usize,
+		feerate_per_kw: u32, assume_fee_spike: bool, dust_exposure_limiting_feerate: Option<u32>,
+		max_dust_htlc_exposure_msat: u64, constraints: [u64; 7],
+		channel_type: &ChannelTypeFeatures,
+	) -> Result<([u64; 3], [u64; 5]), ()> {
+		let pending: Vec<HTLCAmountDirection> = htlcs
+			.iter()
+			.map(|(outbound, amount_msat)| HTLCAmountDirection {
+				outbound: *outbound,
+				amount_msat: *amount_msat,
+			})
+			.collect();
+		let channel_constraints = ChannelConstraints {
+			holder_dust_limit_satoshis: constraints[0],
+			counterparty_selected_channel_reserve_satoshis: constraints[1],
+			counterparty_dust_limit_satoshis: constraints[2],
+			holder_selected_channel_reserve_satoshis: constraints[3],
+			counterparty_htlc_minimum_msat: constraints[4],
+			counterparty_max_htlc_value_in_flight_msat: constraints[5],
+			counterparty_max_accepted_htlcs: constraints[6],
+		};
+		let stats = SpecTxBuilder {}.get_channel_stats(
+			local,
+			is_outbound_from_holder,
+			channel_value_satoshis,
+			value_to_holder_msat,
+			&pending,
+			addl_nondust_htlc_count,
+			feerate_per_kw,
+			assume_fee_spike,
+			dust_exposure_limiting_feerate,
+			max_dust_htlc_exposure_msat,
+			channel_constraints,
+			channel_type,
+		)?;
+		let c = stats.commitment_stats;
+		let a = stats.available_balances;
+		Ok((
+			[c.holder_balance_msat, c.counterparty_balance_msat, c.dust_exposure_msat],
+			[
+				a.inbound_capacity_msat,
+				a.outbound_capacity_msat,
+				a.next_outbound_htlc_limit_msat,
+				a.next_outbound_htlc_minimum_msat,
+				a.dust_exposure_msat,
+			],
+		))
+	}
+
+	/// `SpecTxBuilder::build_commitment_transaction`; also returns
+	/// (commit_tx_fee_sat, local_balance_before_fee_msat, remote_balance_before_fee_msat).
+	pub fn build_commitment_transaction<L: Logger>(
+		local: bool, commitment_number: u64, per_commitment_point: &PublicKey,
+		channel_parameters: &ChannelTransactionParameters, secp_ctx: &Secp256k1<secp256k1::All>,
+		value_to_self_msat: u64, htlcs_in_tx: Vec<HTLCOutputInCommitment>, feerate_per_kw: u32,
+		broadcaster_dust_limit_satoshis: u64, logger: &L,
+	) -> (CommitmentTransaction, [u64; 3]) {
+		let (tx, stats) = SpecTxBuilder {}.build_commitment_transaction(
+			local,
+			commitment_number,
+			per_commitment_point,
+			channel_parameters,
+			secp_ctx,
+			value_to_self_msat,
+			htlcs_in_tx,
+			feerate_per_kw,
+			broadcaster_dust_limit_satoshis,
+			logger,
+		);
+		(
+			tx,
+			[
+				stats.commit_tx_fee_sat,
+				stats.local_balance_before_fee_msat,
+				stats.remote_balance_before_fee_msat,
+			],
+		)
+	}
+
+	pub fn commit_tx_fee_sat(
+		feerate_per_kw: u32, num_htlcs: usize, channel_type: &ChannelTypeFeatures,
+	) -> u64 {
+		crate::ln::chan_utils::commit_tx_fee_sat(feerate_per_kw, num_htlcs, channel_type)
+	}
+}
